@@ -169,6 +169,24 @@ def check_threshold_optimizer(case):
             if s in seen and abs(seen[s] - p[i]) > 1e-12:
                 raise PropertyViolation(f"rows of tuple {t} with the same score {s} get different probabilities {seen[s]} / {p[i]}")
             seen[s] = p[i]
+    # the rule applied to a row must not depend on which other rows are in the batch: predict sub-batches
+    # (rows sharing the value of one column - so that column is constant in the batch -, a drawn subset, single rows)
+    batches = []
+    ncol = len(table[0])
+    for j in range(ncol):
+        for v in sorted({r[j] for r in table}):
+            rows = [i for i in range(n) if table[i][j] == v]
+            if 0 < len(rows) < n:
+                batches.append(rows)
+    sub = sorted({i % n for i in case.get("subset", [])})
+    if sub:
+        batches.append(sub)
+    batches.append([case["perm"][0]])
+    for rows in batches:
+        pb = to._pmf_predict(X[rows], sensitive_features=_wrap_table(case["kind2"], [table[i] for i in rows]))[:, 1]
+        if np.abs(pb - p[rows]).max() > 1e-12:
+            k = int(np.argmax(np.abs(pb - p[rows])))
+            raise PropertyViolation(f"ThresholdOptimizer: row {rows[k]} (tuple {tuple(table[rows[k]])}) gets P(1)={pb[k]} when predicted in the batch of rows {rows} but {p[rows[k]]} in the full table: the rule applied depends on the rest of the batch")
     which = {"demographic_parity": ["sel"], "true_positive_rate_parity": ["tpr"], "false_positive_rate_parity": ["fpr"],
              "equalized_odds": ["tpr", "fpr"]}[case["constraint"]]
     for m in which:
@@ -307,7 +325,8 @@ def _to_cases(draw):
             "constraint": draw(st.sampled_from(["demographic_parity", "equalized_odds", "true_positive_rate_parity",
                                                 "false_positive_rate_parity"])),
             "grid_size": draw(st.sampled_from([10, 1000])), "flip": draw(st.booleans()),
-            "perm": list(draw(st.permutations(range(n))))}
+            "perm": list(draw(st.permutations(range(n)))),
+            "subset": draw(st.lists(st.integers(0, 40), min_size=0, max_size=5))}
 
 
 @st.composite
